@@ -25,7 +25,7 @@ EVIDENCE = dict(
              "discipline is the comparison of the full error multiset (kind, path, actual, parameter) on this run's cases",
              "th.PathHolder / niltype are third-party and modelled, not verified"],
     rule="(schema, value) cases as in C02/C08 with nested containers having >=2 members at depth >=1; every real error is "
-         "followed from the root with the real PathHolder operators and its fact re-evaluated in plain Python")
+         "followed from the root with the real PathHolder operators and its fact re-evaluated in plain Python; thorough tier adds the small scope (every other schema x 121 values, plain validator with the oracle; every schema x 57 values incl. `...` for the substitution validator), full error lists")
 
 
 def follow(root, path):
@@ -165,6 +165,11 @@ def run(ctx):
         ctx.breakage("correspondence", "error multiset (kind, path, actual, parameter) differs between model and code",
                      schema=repr(c.schema), value=repr(c.value), detail=detail, request=c.req)
     ctx.cov["corr_disagreements"] = len(dis)
+    if not ctx.quick():
+        # thorough: the whole small scope, both validators, full error lists (kind, path, actual, parameter) and the oracle
+        from .. import smallscope
+        smallscope.validate_scope(ctx, view="errors", oracle=oracle, stride=2, what="error list")
+        smallscope.validate_scope(ctx, sub=True, view="errors", what="error list of the substitution validator")
     k = 0
     for c in cases:
         if c.real and k < 5 and len(c.real[0].path) >= 2:
